@@ -348,7 +348,7 @@ pub(crate) fn parse_unknown_ifdata_start(
         let tag = parser.get_token_text(token);
         let uid = parser.get_next_id();
         let newcontext = ParseContext::from_token(tag, token);
-        let result = parse_unknown_ifdata(parser, &newcontext, true)?;
+        let result = parse_unknown_ifdata(parser, &newcontext, true, 0)?;
         // hack: temporarily undo the previous token, so that we can get it's end offset
         parser.undo_get_token();
         let end_offset = parser.get_line_offset();
@@ -375,9 +375,12 @@ pub(crate) fn parse_unknown_ifdata_start(
         })
     } else {
         // first token cannot be a tag, so the format is totally unknown
-        parse_unknown_ifdata(parser, context, true)
+        parse_unknown_ifdata(parser, context, true, 0)
     }
 }
+
+/// Limit for the nesting depth of blocks inside IF_DATA if there is no A2ML specification for the data
+const MAX_UNKNOWN_IFDATA_NESTING: usize = 100;
 
 // parse_unknown_ifdata()
 // this function provides a fallback in case the data inside of an IF_DATA block cannot be
@@ -389,8 +392,19 @@ pub(crate) fn parse_unknown_ifdata(
     parser: &mut ParserState,
     context: &ParseContext,
     is_block: bool,
+    nesting: usize,
 ) -> Result<GenericIfData, ParserError> {
     let mut items: Vec<GenericIfData> = Vec::new();
+
+    // nested blocks are handled recursively. (Damaged) input with absurdly deep nesting must not exhaust the stack
+    if nesting > MAX_UNKNOWN_IFDATA_NESTING {
+        return Err(ParserError::NestingTooDeep {
+            filename: parser.filenames[context.fileid].to_string(),
+            error_line: parser.last_token_position,
+            block: context.element.clone(),
+            block_line: context.line,
+        });
+    }
 
     loop {
         let token_peek = parser.peek_token();
@@ -434,7 +448,7 @@ pub(crate) fn parse_unknown_ifdata(
                 // if this is directly within a block level element, then a new taggedstruct will be created to contain the new block element
                 // if it is not, this block belongs to the parent and we only need to break and exit here
                 if is_block {
-                    items.push(parse_unknown_taggedstruct(parser, context)?);
+                    items.push(parse_unknown_taggedstruct(parser, context, nesting)?);
                 } else {
                     break;
                 }
@@ -464,6 +478,7 @@ pub(crate) fn parse_unknown_ifdata(
 fn parse_unknown_taggedstruct(
     parser: &mut ParserState,
     context: &ParseContext,
+    nesting: usize,
 ) -> Result<GenericIfData, ParserError> {
     let mut tsitems: HashMap<String, Vec<GenericIfDataTaggedItem>> = HashMap::new();
 
@@ -482,7 +497,7 @@ fn parse_unknown_taggedstruct(
         let uid = parser.get_next_id();
         let tag = parser.get_token_text(token);
         let newcontext = ParseContext::from_token(tag, token);
-        let result = parse_unknown_ifdata(parser, &newcontext, is_block)?;
+        let result = parse_unknown_ifdata(parser, &newcontext, is_block, nesting + 1)?;
 
         let end_offset = if is_block {
             parser.expect_token(&newcontext, A2lTokenType::End)?;
